@@ -224,7 +224,7 @@ func runHistory(fsetOf func() *ruleguard.LoadContext, files []string, limit time
 			}()
 			err := e.Load(fsetOf(), "rules.go", strings.NewReader(src))
 			if err != nil {
-				o = Obs{Kind: "error", Err: err.Error(), Located: locRe.MatchString(err.Error())}
+				o = Obs{Kind: "error", Err: err.Error(), Located: namesLine(err.Error(), []byte(src))}
 			} else {
 				o = Obs{Kind: "ok"}
 			}
